@@ -283,7 +283,10 @@ class CParser:
         if not typename:
             # Functions default to returning int
             if not isinstance(decl.type, c_ast.FuncDecl):
-                self._parse_error("Missing type in declaration", decl.coord)
+                self._parse_error(
+                    "Missing type in declaration",
+                    decl.coord if decl.coord is not None else self.clex.filename,
+                )
             typ.type = c_ast.IdentifierType(["int"], coord=decl.coord)
         else:
             # At this point, we know that typename is a list of IdentifierType
